@@ -18,7 +18,7 @@ TAG_PROPERTY = {
     "ev.traverse": "C05", "mon.reach": "C05",
     "ev.plan": "C06", "plans": "C06", "pex": "C06", "succ": "C06", "fail": "C06", "tasks": "C06", "hst": "C06", "sst": "C06",
     "prev": "C09", "tt": "C09", "last": "C09",
-    "mon.idle.pe": "C13", "mon.idle.px": "C13", "mon.idle.pc": "C13", "mon.scheduled": "C13", "sub": "C13",
+    "mon.idle.pe": "C13", "mon.idle.px": "C13", "mon.idle.pc": "C13", "mon.idle.px.D10": "C13", "mon.idle.pc.D10": "C13", "mon.scheduled": "C13", "sub": "C13",
     "isR": "C13", "isS": "C13", "ev.guard.queries": "C13", "pe": "C13", "px": "C13", "pc": "C13", "ev.config": "C13",
     "prev.payload": "C14", "ev.guard.payload": "C14", "ev.life.payload": "C14",
     "mon.report": "C16", "strA": "C16", "hist": "C16",
@@ -32,7 +32,8 @@ UNATTRIBUTED = {"ev.life", "ev.report", "ev.all"}
 
 TIERS = {
     "quick": dict(fixtures=["min", "comp", "ortho", "strat", "auto", "peers"], records=900, chunks=3,
-                  variants=["plain", "asan", "assert"], mc=["min", "comp"], systematic={"auto": 2, "ortho": 1}),
+                  variants=["plain", "asan", "assert"], extra_variant_fixtures=["min", "ortho", "auto"],
+                  mc=["min", "comp"], systematic={"auto": 2, "ortho": 1}),
     "thorough": dict(fixtures=["min", "comp", "ortho", "strat", "auto", "peers", "oroot", "wide", "plan", "selpeers"],
                      records=12000, chunks=12, variants=["plain", "asan", "assert", "dev", "plain11"], mc=["min", "comp", "ortho", "oroot"],
                      systematic={"min": 12, "comp": 10, "ortho": 8, "strat": 6, "auto": 10, "peers": 6, "oroot": 8, "plan": 6}),
@@ -85,6 +86,8 @@ def campaign(tier, seed=SEED, log=print):
     for fxname in cfg["fixtures"]:
         fx = fixture(fxname)
         for variant in cfg["variants"]:
+            if variant != "plain" and fxname not in cfg.get("extra_variant_fixtures", cfg["fixtures"]):
+                continue
             try:
                 exe = build.build(fx, variant)
             except RuntimeError as e:
@@ -196,9 +199,10 @@ def route(run, d, rec_kinds=None):
 # (monitors, which judge the observed data alone, always count for their own property).
 STAGES = [
     ("C05", {"ev.traverse"}),
-    ("C06", {"ev.plan", "plans", "pex", "succ", "fail", "tasks", "hst", "sst"}),
+    ("C06", {"ev.plan", "succ", "fail", "hst", "sst"}),
     ("C12", {"draws"}),
     ("CFG", {"act", "isA", "res"}),
+    ("C06", {"plans", "pex", "tasks"}),             # plan edits made from lifecycle callbacks come after the resolution
     ("C04", {"ev.guard", "ev.guard.pending", "q", "req", "rem", "oreq"}),
     ("C13", {"sub", "isR", "isS", "ev.guard.queries", "pe", "px", "pc", "ev.config"}),
     ("C09", {"prev", "tt", "last", "ret"}),
@@ -220,13 +224,13 @@ def primary(run, ds):
         hit = [d for d in ds if d["tag"] in stage_tags]
         if not hit:
             continue
-        if prop == "CFG" or call in ("load", "save", "replay", "replayenter", "copy"):
+        if prop == "CFG" or call in ("load", "save", "copy"):
             if call in ("load", "save"):
                 prop = "C08"
-            elif call in ("replay", "replayenter"):
-                prop = "C09"
             elif call == "copy":
                 prop = "C10"
+            elif call in ("replay", "replayenter"):
+                prop = "C02"        # replay re-resolves with the same machinery; C09 owns the replica monitors and the history projections
             elif prop == "CFG":
                 f, l = ds[0]["file"], ds[0]["l"]
                 prop = "C04" if (f, l) in vetoed_records(run) else ("C12" if "ev.report" in tags or "draws" in tags else "C02")
